@@ -9,12 +9,13 @@ from ovld import types as otypes, dependent as odep
 NONE, LIST, TUPLE, TYPE = 12, 5, 6, 1
 
 CLAIM = dict(
-    text="Coq theorems on the model of the annotation normaliser (Model/Norm.v: TypeNormalizer and abc.py's generic handlers): typing.Union[...] / A | B / the tuple (A, B) have one normal form; Optional[A] = A | None; a missing annotation = typing.Any = object; Annotated[A, ...] = A; a string = the annotation it names; list[A] = typing.List[A]; bare type = type[object]; normalisation is compositional. Dispatch depends on an annotation only through its normal form (methods carry normal types in the resolution model), so equal normal forms dispatch identically. The equalities hold by computation -- thin theorems; the assurance for C15 is mostly the correspondence: for generated annotations in every supported spelling, normalize_type of the real annotation object is compared with the model's norm, and each respelling (including reorderings of union members and Literal values) of one method's annotation inside random surrounding method sets -- also sets containing both spellings -- is run over an argument corpus and must give identical outcomes. Member order: the library identifies reordered unions / intersections / Literals since fix: 1379476 (KF-52); before it reordered spellings were distinct signatures.",
+    text="Coq theorems on the model of the annotation normaliser (Model/Norm.v: TypeNormalizer and abc.py's generic handlers): typing.Union[...] / A | B / the tuple (A, B) have one normal form; Optional[A] = A | None; a missing annotation = typing.Any = object; Annotated[A, ...] = A; a string = the annotation it names; list[A] = typing.List[A]; bare type = type[object]; normalisation is compositional. General statements (Proofs/NormRespell.v): `respell` is the least equivalence containing those documented pairs and closed under every compound annotation form; related annotations normalise to the same type (C15_respelling_same_type, by induction on the derivation), hence two method lists differing only by respellings -- any number, any depth, any parameter of any method -- are the same list of registered methods and lookup / lookup_next agree for every class hierarchy and every key (C15_respelling_same_dispatch, C15_respelling_same_continuation). Reorderings are not identities of the model's terms (the library identifies them through an order-insensitive ==, the harness hands the model a canonical member order); proved about them: reordering members of unions / intersections / Literal values at any depth leaves the set of classes under the type unchanged (C15_reorder_same_classes, through C13's denotation theorem), and a Literal keeps its bound and its members (C15_literal_order). The rest of the assurance for C15 is the correspondence: for generated annotations in every supported spelling, normalize_type of the real annotation object is compared with the model's norm, and each respelling (including reorderings of union members and Literal values) of one method's annotation inside random surrounding method sets -- also sets containing both spellings -- is run over an argument corpus and must give identical outcomes. Member order: the library identifies reordered unions / intersections / Literals since fix: 1379476 (KF-52); before it reordered spellings were distinct signatures.",
     note="Trusted: eval of string annotations (tested, not modelled), Python's typing module flattening / deduplicating union members before the library sees them.",
-    technique="Coq computation lemmas on the normaliser model + differential correspondence of respelt programs", design="6 C15")
+    technique="Coq proof (respelling relation closed under all annotation forms -> same normal type -> same dispatch; reordering invariance of the class-level meaning) + differential correspondence of respelt programs", design="6 C15")
 
 THEOREMS = ["C15_union_spellings", "C15_optional", "C15_any_missing_object", "C15_annotated", "C15_string",
-            "C15_list_spellings", "C15_congruence_union", "C15_bare_type"]
+            "C15_list_spellings", "C15_congruence_union", "C15_bare_type", "C15_respelling_same_type", "C15_respelling_same_dispatch",
+            "C15_respelling_same_continuation", "C15_reorder_same_classes", "C15_literal_order"]
 ASSUMPTIONS = []
 
 _ids = itertools.count()
